@@ -9,12 +9,13 @@ import PPV.Model.FixedNode
 import PPV.Lemmas.Sums
 import PPV.Lemmas.KTac
 import PPV.Gen.Kernels
+import PPV.Gen.Components
 import Mathlib.Tactic.FieldSimp
 import Mathlib.Tactic.Positivity
 import Mathlib.Algebra.BigOperators.Group.List.Basic
 
 namespace PPV.Props.C03
-open PPV.Model.Assemble PPV.Model.FixedNode PPV.Lemmas PPV PPV.Gen PPV.Gen.Kernels
+open PPV.Model.Assemble PPV.Model.FixedNode PPV.Lemmas PPV PPV.Gen PPV.Gen.Kernels PPV.Gen.Components
 
 variable {R : Type} [CommRing R] {n b : ℕ}
 
@@ -165,5 +166,55 @@ theorem compressor_ratio_gas (br : BranchRow ℝ) (nf : NodeRow ℝ) (lam dl p p
 theorem compressor_reverse_no_lift (p ratio m : ℝ) (hm : m < 0) :
     compressorLift (fun a b => decide (a < b)) p ratio m = 0 := by
   simp [compressorLift, hm]
+
+
+/-! ### the rows the component classes write (generated from the current `adaption_*` class methods) -/
+
+/-- the lift the current `Compressor.adaption_before_derivatives_hydraulic` writes into `PL` is the compressor rule:
+    `p_from,abs·ratio − p_from,abs` for forward flow, nothing for reverse flow -/
+theorem compressor_lift_generated (br : BranchRow ℝ) (nf : NodeRow ℝ) (ratio : ℝ) :
+    (compressorBeforeHydraulic br nf ratio).PL =
+      compressorLift (fun a b => decide (a < b)) (nf.PAMB + nf.PINIT) ratio br.MDOTINIT := by
+  simp only [compressorBeforeHydraulic, compressorLift]
+  kunfold
+
+/-- **compressor, code to set-point**: with the lift written by the current compressor class and a vanishing residual
+    of the generated liquid kernel, the absolute outlet pressure is `ratio ×` the absolute inlet pressure (plus the
+    hydrostatic term) -/
+theorem compressor_ratio_of_code (br : BranchRow ℝ) (nf : NodeRow ℝ) (dl p1 dh rho ratio : ℝ)
+    (hL : br.LENGTH = 0) (hLC : br.LOSS_COEFFICIENT = 0) (hm : ¬ br.MDOTINIT < 0)
+    (hPL : br.PL = (compressorBeforeHydraulic br nf ratio).PL)
+    (hres : (hydIncompNp br dl (nf.PAMB + nf.PINIT) p1 dh rho).load_vec = 0) :
+    p1 = ratio * (nf.PAMB + nf.PINIT) + rho * 9.81 * dh / 100000 :=
+  compressor_ratio br dl (nf.PAMB + nf.PINIT) p1 dh rho ratio hL hLC hm (by rw [hPL, compressor_lift_generated]) hres
+
+/-- an active flow controller's branch row is the identity on its mass flow: `dF/dp = dF/dp' = 0`, `dF/dm = 1`,
+    residual 0 — exactly the hypothesis of `flow_identity_invariant` -/
+theorem flow_control_rows_generated (br : BranchRow ℝ) (act : ℝ) (h : act ≠ 0) :
+    flowControlAfterHydraulic br act = ⟨0, 0, 1, 0⟩ := by
+  simp only [flowControlAfterHydraulic]
+  kunfold
+  simp [h]
+
+/-- an inactive flow controller leaves the row of the generic branch equation untouched -/
+theorem flow_control_inactive_generated (br : BranchRow ℝ) :
+    flowControlAfterHydraulic br 0 = ⟨br.JAC_DERIV_DP, br.JAC_DERIV_DP1, br.JAC_DERIV_DM, br.LOAD_VEC_BRANCHES⟩ := by
+  simp only [flowControlAfterHydraulic]
+  kunfold
+
+/-- an active pressure controller's own branch equation is blanked (its row carries the partner-node identity
+    instead, `pc_pressure_invariant`); an inactive one keeps the generic row -/
+theorem press_control_rows_generated (br : BranchRow ℝ) :
+    (br.BRANCH_TYPE = 1 → pressControlAfterHydraulic br = ⟨0, 0, 0⟩) ∧
+    (br.BRANCH_TYPE ≠ 1 → pressControlAfterHydraulic br = ⟨br.JAC_DERIV_DP, br.JAC_DERIV_DP1, br.JAC_DERIV_DM⟩) := by
+  constructor <;> intro h <;> simp only [pressControlAfterHydraulic] <;> kunfold <;> simp [h]
+
+/-- a heat consumer's hydraulic row prescribes its mass flow (every mode but heat-and-return-temperature): identity row -/
+theorem heat_consumer_rows_generated (br : BranchRow ℝ) (nf nt : NodeRow ℝ) (mode cp : ℝ) (h : mode ≠ 5) :
+    let r := hcAfterHydraulic br nf nt mode cp
+    r.JAC_DERIV_DP = 0 ∧ r.JAC_DERIV_DP1 = 0 ∧ r.JAC_DERIV_DM = 1 ∧ r.LOAD_VEC_BRANCHES = 0 ∧ r.MDOTINIT = br.MDOTINIT := by
+  simp only [hcAfterHydraulic]
+  kunfold
+  simp [h]
 
 end PPV.Props.C03
